@@ -26,5 +26,5 @@ Definition claim_g (c : wcase) : bool :=
 Definition check_g (c : wcase) : bool :=
   match run_g c with
   | GPass => match store16 (g_y c) with Some v => zeqb_list v (g_out c) && feq_bits (g_lopt c) zero | None => true end
-  | GFit z l => match store16 z with Some v => zeqb_list v (g_out c) && feq_bits l (g_lopt c) | None => true end
+  | GFit z l => feq_bits l (g_lopt c) && match store16 z with Some v => zeqb_list v (g_out c) | None => true end
   end.
